@@ -2,6 +2,7 @@ use crate::CheckDef;
 
 pub mod c01;
 pub mod c02;
+pub mod c03;
 pub mod c17;
 pub mod c20;
 pub mod c21;
@@ -32,6 +33,26 @@ pub fn registry() -> &'static [CheckDef] {
             cpu_budget_ms: 60_000,
             run: c02::run,
             assumptions: &["twin B has no user indexes (primary-key hash index only)"],
+        },
+        CheckDef {
+            id: "C03",
+            level: "exploration",
+            rule: "Table t(id, i, j INTEGER, d DOUBLE, s VARCHAR) with 0..1030 rows (sizes around SIMD lane/batch boundaries: 0,1,..,9,15,16,17,63,64,65,...), NULL density 0/10/30/100 % per column, +-0.0 and large magnitudes; 8 single-table aggregate statements per table (COUNT(*)/COUNT(c)/SUM/AVG/MIN/MAX over int, double, text columns and a*b / a+k, simple WHERE with = <> < <= > >= BETWEEN and NULL literals, HAVING, ORDER BY, LIMIT/OFFSET; every 4th may have GROUP BY/DISTINCT). Each statement runs twice on the same build: columnar gate open, and with the no_columnar switch of the verif hook; results must agree (1e-9 relative tolerance), and on the columnar path COUNT is never NULL and exactly one row comes back without HAVING/LIMIT. distinct = (aggregate shapes, predicate shapes, clauses, table size class, nulls) for statements on which the columnar probe fired.",
+            floor: 40,
+            shards: 16,
+            cpu_budget_ms: 60_000,
+            run: c03::run_c03,
+            assumptions: &["the row path of the same build is the oracle (C07's model cross-checks a bug common to both)"],
+        },
+        CheckDef {
+            id: "C07",
+            level: "exploration",
+            rule: "Same tables as C03; statements additionally use GROUP BY (int, text, two-column keys; NULL keys), DISTINCT aggregates and HAVING. Expected rows are computed by a naive model from the inserted rows (exact i128 / f64 arithmetic, NULLs skipped, NULL when no value, one row per distinct key with NULLs as one group, exactly one row without GROUP BY) and compared with the engine on BOTH execution paths. distinct = (aggregate shapes, predicate shapes, grouping, clauses, size class, nulls, path).",
+            floor: 100,
+            shards: 16,
+            cpu_budget_ms: 60_000,
+            run: c03::run_c07,
+            assumptions: &["rows are inserted through Database::insert_row so that -0.0 and exact doubles reach the table"],
         },
         CheckDef {
             id: "C17",
